@@ -49,7 +49,8 @@ MANIFEST = dict(
          "equal coefficient and argument of an uninterpreted exp); totality (the no-piece-applies path is infeasible for every "
          "real input); continuity defect at every breakpoint <= 1e-4 mV (forward) ; strict monotonicity via forward-mode derivative "
          "of the real code (exists T with f'(T) <= 0 unsat); inverse: exists T with |inv(fwd(T)) - T| > 0.1 C unsat on the ITS-90 "
-         "inverse range; ThermocoupleScaling applies direction and the uV<->mV factor.",
+         "inverse range; ThermocoupleScaling (built from NI_Scale properties, reading the raw data at index 0 and reading an earlier "
+         "scale at index 1 with decoy properties under index 0) applies direction and the uV<->mV factor.",
     note="Over the reals: float64 rounding of the Horner evaluation, NaN inputs and the dense-grid part of the quantifier are outside. "
          "Type K above 0 C (exponential term): identity and totality are decided; monotonicity and the inverse tolerance are "
          "decided with exp enclosed between rational bounds on sub-intervals (1 degree for the inverse below 450 C, 10 degrees for monotonicity; endpoint argument: both are monotone in the enclosed term).  The inverse tolerances are the NIST ITS-90 error ranges per "
@@ -129,6 +130,10 @@ def tasks(tier, seed):
                 ts.append(dict(kind='inverse', type=t, lo=a + (b - a) * k / n, hi=a + (b - a) * (k + 1) / n))
         ts.append(dict(kind='scaling', type=t, direction=1))
         ts.append(dict(kind='scaling', type=t, direction=0))
+        # the same with the scale at index 1 fed by scale 0 instead of the raw data: the microvolt convention does not depend on
+        # where the input comes from (decoy thermocouple properties under index 0)
+        ts.append(dict(kind='scaling', type=t, direction=1, src=0))
+        ts.append(dict(kind='scaling', type=t, direction=0, src=0))
     ts.sort(key=lambda x: 0 if x['kind'] == 'inverse' else 1)
     return ts
 
@@ -412,10 +417,7 @@ def run_task(task):
         from nptdms.scaling import ThermocoupleScaling
         x = z3.Real('x')
         ctx.inputs['x'] = x
-        sc = ThermocoupleScaling.from_properties({
-            'NI_Scale[0]_Thermocouple_Thermocouple_Type': CODES[t],
-            'NI_Scale[0]_Thermocouple_Scaling_Direction': task['direction'],
-            'NI_Scale[0]_Thermocouple_Input_Source': 0xFFFFFFFF}, 0)
+        sc = _scaling_from_props(ThermocoupleScaling, t, task)
         out = sc.scale(rarr([x]))[0]
         if task['direction'] == 1:
             ref = tc.celsius_to_mv(rarr([x]))[0]
@@ -459,7 +461,27 @@ def _exp_apps(e):
 
 
 def signature(c):
-    return 'C18/%s/%s/%s' % (c['task']['type'], c['task']['kind'], c.get('what', ''))
+    return 'C18/%s/%s/%s' % (c['task']['type'], c['task']['kind'] + ('@after-scale' if c['task'].get('src') is not None else ''),
+                             c.get('what', ''))
+
+
+def _scaling_from_props(ThermocoupleScaling, t, task):
+    """ThermocoupleScaling as TdmsChannel builds it: from NI_Scale[k] properties; k = 0 reading the raw data, or k = 1 reading
+    scale 0 (task['src'] = 0) with another type / the other direction as decoy under index 0."""
+    src = task.get('src')
+    if src is None:
+        return ThermocoupleScaling.from_properties({
+            'NI_Scale[0]_Thermocouple_Thermocouple_Type': CODES[t],
+            'NI_Scale[0]_Thermocouple_Scaling_Direction': task['direction'],
+            'NI_Scale[0]_Thermocouple_Input_Source': 0xFFFFFFFF}, 0)
+    other = [c for c in CODES.values() if c != CODES[t]][0]
+    return ThermocoupleScaling.from_properties({
+        'NI_Scale[0]_Thermocouple_Thermocouple_Type': other,
+        'NI_Scale[0]_Thermocouple_Scaling_Direction': 1 - task['direction'],
+        'NI_Scale[0]_Thermocouple_Input_Source': 0xFFFFFFFF,
+        'NI_Scale[1]_Thermocouple_Thermocouple_Type': CODES[t],
+        'NI_Scale[1]_Thermocouple_Scaling_Direction': task['direction'],
+        'NI_Scale[1]_Thermocouple_Input_Source': src}, 1)
 
 
 def _f(s):
@@ -536,7 +558,7 @@ def replay(art):
         return None
     if kind == 'scaling':
         x = _f(inp['x'])
-        sc = ThermocoupleScaling(CODES[t], task['direction'], 0xFFFFFFFF)
+        sc = _scaling_from_props(ThermocoupleScaling, t, task)
         got = float(sc.scale(np.array([x]))[0])
         exp = 1000.0 * float(tc.celsius_to_mv(np.array([x]))[0]) if task['direction'] == 1 else float(tc.mv_to_celsius(np.array([x / 1000.0]))[0])
         if not (abs(got - exp) <= 1e-9 * max(1.0, abs(exp))):
